@@ -289,7 +289,7 @@ def req_dispatch(ctx, cls, rule="R-REQ-DISPATCH"):
                 inst = "%s.notify: request dispatched to every CA that accepts the destination" % cls
                 acc = ("call", ("attr", caobj, "message_acceptable"), (_dest_of(r),), ())
                 gl = lits(r.guards(i))
-                ok = (acc, True) in gl and caobj[0] == "iter" and caobj[1] == field("_cas")
+                ok = (acc, True) in gl and caobj[0] == "iter" and contains(caobj[1], field("_cas"))
                 a = e.value[2]
                 okargs = len(a) >= 3 and a[0][0] == "call" and a[0][1] == ("clsref", "MessageId") and a[1] == _dest_of(r) and a[2] == ("p", "data")
                 if ok and okargs:
@@ -669,7 +669,7 @@ def claim_bcast(ctx, cls, rule="R-CLAIM-BCAST"):
                 loop_i = max([j for j, rec in enumerate(r.recs[:i]) if rec.ev.kind == "for"] or [0])
                 inner = [rec for rec in r.recs[loop_i:i] if rec.cond is not None]
                 inst = "%s.notify: address-claimed frames reach every CA of the stack" % cls
-                if caobj[0] == "iter" and caobj[1] == field("_cas") and not inner and e.value[2][1:2] == (("p", "data"),):
+                if caobj[0] == "iter" and contains(caobj[1], field("_cas")) and not inner and e.value[2][1:2] == (("p", "data"),):
                     ctx.holds(rule, inst)
                 else:
                     ctx.violated(rule, f, inst, "address claims are filtered per CA or not passed the frame data", e.node)
@@ -695,17 +695,15 @@ def ca_loops(ctx, cls, rule="R-CA-LOOPS"):
             if rec.ev.pol != "iter":
                 continue
             it = r.recs[j].ev.node.iter
-            if isinstance(it, ast.Attribute) and it.attr == "_cas" and isinstance(it.value, ast.Name) and it.value.id == "self":
+            if any(isinstance(x, ast.Attribute) and x.attr == "_cas" and isinstance(x.value, ast.Name) and x.value.id == "self" for x in ast.walk(it)):
                 over.setdefault(id(rec.ev.node), (rec.ev.node, []))[1].append(j)
         if not over:
             continue
         exhausted = {id(rec.ev.node) for j, rec in fors if rec.ev.pol == "exhaust"}
         calls = [(i, e) for i, e in r.effects() if e.kind == "call" and mname(e.value) in all_handlers]
         for nid, (node, its) in over.items():
-            def loop_of(i):
-                prev = [id(rec.ev.node) for j, rec in fors if j < i and rec.ev.pol == "iter" and id(rec.ev.node) in over]
-                return prev[-1] if prev else None
-            inside = [(i, e) for i, e in calls if mname(e.value) in handlers and e.value[1][1][0] == "iter" and loop_of(i) == nid]
+            body_nodes = {id(x) for x in ast.walk(node)}
+            inside = [(i, e) for i, e in calls if mname(e.value) in handlers and e.value[1][1][0] == "iter" and id(e.node) in body_nodes]
             if inside:
                 role = "dispatch of %s" % mname(inside[0][1].value)
                 key = (node.lineno, role)
@@ -822,3 +820,33 @@ def lose_order(ctx, rule="R-LOSE-ORDER"):
             ctx.holds(rule, inst)
     if n < 2:
         ctx.unknown(rule, "losing paths not found (%d)" % n)
+
+
+def claim_order(ctx, rule="R-CLAIM-ORDER"):
+    """the starting CA leaves the state NONE (stores WAIT_VETO / NORMAL and the announced address) BEFORE its first claim is sent:
+    a contender's answer can be processed before the sending call returns, and in the state NONE it would be ignored"""
+    P = ctx.prog
+    st = ca_consts(ctx)
+    f = P.func(CA, "_process_claim_async")
+    n = 0
+    for r in runs(ctx, f):
+        gl = lits(r.guards())
+        if (mk_cmp("==", STATE_F, ("c", st["NONE"])), True) not in gl:
+            continue
+        sends = [(i, e) for i, e in r.effects() if e.kind == "call" and e.value[1] == ("attr", SELF, "_send_address_claimed")]
+        if not sends:
+            continue
+        n += 1
+        states = [i for i, e in r.effects() if e.kind == "store" and e.target == STATE_F and e.value != ("c", st["NONE"])]
+        ann = [i for i, e in r.effects() if e.kind == "store" and e.target == ANN_F]
+        to = [e.value for i, e in r.effects() if e.kind == "store" and e.target == STATE_F]
+        lab = "veto range" if ("c", st["WAIT_VETO"]) in to else "immediate range"
+        inst = "first claim (%s): state and announced address are stored before the claim is sent" % lab
+        if not states or states[0] > sends[0][0] or not ann or ann[0] > sends[0][0]:
+            ctx.violated(rule, f, inst, "the claim is handed to the bus while the CA is still in the state NONE%s: the veto of a CA that already holds the "
+                         "address, processed before the sending call returns, is ignored and both end up operational at the same address" % (
+                             "" if ann and ann[0] < sends[0][0] else " / has not recorded the announced address"), sends[0][1].node)
+        else:
+            ctx.holds(rule, inst)
+    if n < 2:
+        ctx.unknown(rule, "claiming paths from the state NONE not found (%d)" % n)
